@@ -5,7 +5,7 @@
 From Coq Require Import ZArith QArith Qround Bool List.
 Require Import QV.C07.Model QV.C07.Spec QV.C07.Wf QV.C07.ProofsRange QV.C07.ProofsLoop QV.C07.ProofsAtoms
                QV.C07.ProofsDur QV.C07.ProofsInt QV.C07.ProofsEnds QV.C07.ProofsIni QV.C07.ProofsFin QV.C07.ProofsPad QV.C07.ProofsWit
-               QV.C07.Hist QV.C07.ProofsHist.
+               QV.C07.Hist QV.C07.ProofsHist QV.C07.Def QV.C07.ProofsDef.
 Import ListNotations.
 Open Scope Q_scope.
 
@@ -94,6 +94,57 @@ Theorem C07_cached_const_history_dependent :
              eval env_empty e = Some 5).
 Proof. exact cached_const_history_dependent. Qed.
 Print Assumptions C07_cached_const_history_dependent.
+
+(* ---- DEFINEDNESS (round 3; Def.guard_C07_defined: the parts create_program never instantiates — values of an empty
+   ConstantPT, body of a zero-fold repetition, body of a loop over an empty range — would be instantiable too, and no
+   scalar divisor is 0).  Templates hit by finding negative-duration-empty need no clause: they denote nothing. ---- *)
+Theorem C07_definedness : forall p rho pcs, wf p = true -> denote p rho = Some pcs -> guard_C07_defined p rho = true ->
+  (exists v, eval rho (duration_expr p) = Some v) /\
+  (forall q c e, dget c (quant q p) = Some e -> exists v, eval rho e = Some v).
+Proof. exact definedness. Qed.
+Print Assumptions C07_definedness.
+
+(* ... which makes the statements of part A total: the symbolic value EVALUATES and equals the quantity of the pulse *)
+Theorem C07_duration_total : forall p rho pcs, wf p = true -> denote p rho = Some pcs -> guard_C07_defined p rho = true ->
+  exists v, eval rho (duration_expr p) = Some v /\ v == total pcs.
+Proof. exact duration_total. Qed.
+Print Assumptions C07_duration_total.
+
+Theorem C07_integral_total : forall p rho pcs c e, wf p = true -> denote p rho = Some pcs -> guard_C07_defined p rho = true ->
+  dget c (integral_expr p) = Some e -> exists x, p_int pcs c = Some x /\ exists v, eval rho e = Some v /\ v == x.
+Proof. exact integral_total. Qed.
+Print Assumptions C07_integral_total.
+
+Theorem C07_initial_total : forall p rho pcs c e x, wf p = true -> denote p rho = Some pcs -> guard_C07_defined p rho = true ->
+  guard_C07_initial_head p rho = true -> dget c (initial_expr p) = Some e -> p_at0 pcs c = Some x ->
+  exists v, eval rho e = Some v /\ v == x.
+Proof. exact initial_total. Qed.
+Print Assumptions C07_initial_total.
+
+Theorem C07_final_total : forall p rho pcs c e x, wf p = true -> denote p rho = Some pcs -> guard_C07_defined p rho = true ->
+  guard_C07_final_tail p rho = true -> dget c (final_expr p) = Some e -> p_end pcs c = Some x ->
+  exists v, eval rho e = Some v /\ v == x.
+Proof. exact final_total. Qed.
+Print Assumptions C07_final_total.
+
+(* all guards hold together on a non-trivial template (loop over range(0,6,2) around a mapped table, three pieces) *)
+Theorem C07_defined_nonvacuous :
+  let p := For vi (EC 0) (EC 6) (EC 2) (Map loop_tab [(2%N, EV vi)] [(chA, Some 4%N)]) in
+  wf p = true /\ guard_C07_defined p env_empty = true /\ guard_C07_initial_head p env_empty = true /\
+  guard_C07_final_tail p env_empty = true /\ exists pcs, denote p env_empty = Some pcs /\ length pcs = 3%nat.
+Proof. exact defined_nonvacuous. Qed.
+Print Assumptions C07_defined_nonvacuous.
+
+(* each clause of the guard is needed: instantiable (empty) templates with the guard false whose symbolic value does NOT
+   evaluate — the values of an empty ConstantPT, the body of a zero-fold repetition, the body of a loop over an empty
+   range (initial_values), a zero divisor of an empty pulse *)
+Theorem C07_definedness_refuted :
+  undefined_witness (Const (EC 0) [(chA, EV 5%N)]) QIntegral /\
+  undefined_witness (Rep (EC 0) (Const (EC 1) [(chA, EV 5%N)])) QIntegral /\
+  undefined_witness (For vi (EC 0) (EC 0) (EC 1) (Const (EC 1) [(chA, EAdd (EV vi) (EV 5%N))])) QInitial /\
+  undefined_witness (ArithL (Const (EC 0) [(chA, EC 1)]) ODiv (SAll (EC 0))) QInitial.
+Proof. exact definedness_refuted. Qed.
+Print Assumptions C07_definedness_refuted.
 
 (* ================================================== Part B ================================================== *)
 (* the unguarded statements of round 1, literally as written then (total evaluation, no well-formedness): *)
